@@ -124,7 +124,7 @@ def known(text, o):
 EXTREME = ['0', '-1', '1//0', '1/0', '1.5', "'a'", '()', '2**70', '1e3', 'None', '', '(', ')', '[', '*', '\\', "'\\6'",
            "'(?P<a'", "'[a-'", "'a{2,1}'", '+', '@[UNDEF]@', '@[EXACTLY_ACT]@', '"', "'", '<<EOF', ':>', '-rel-tmp', '-rel',
            '!', '&&', '||', '=', ':', '{', '}', '-full', 'é', '\t', "'a{4294967296}'", '10**5000', '[setup]', '`', '\x0c', '\x0b', '\u00a0', '\u2028', 'a' * 300,
-           "''", "'.'", '\u00b2', '9' * 5000, '007', '\u0661']
+           "''", "'.'", '\u00b2', '9' * 5000, '007', '\u0661', 'exit()', 'exit(7)', 'quit()']
 
 
 def mutate(rnd, text):
